@@ -207,6 +207,12 @@ func c02Run(ops []Op, seed int64, tornImages int, maxImages int, tornStride int)
 	var mu sync.Mutex
 	imgSeq := 0
 	tornBudget := tornImages
+	epoch := 0
+	tornInEpoch := map[int]int{}
+	tornPerEpoch := 1
+	if tornImages > 4 {
+		tornPerEpoch = 2
+	}
 	SetExtraHook(func(name string) {
 		mu.Lock()
 		defer mu.Unlock()
@@ -224,7 +230,10 @@ func c02Run(ops []Op, seed int64, tornImages int, maxImages int, tornStride int)
 			return
 		}
 		var tornFrom int64 = -1
-		if strings.HasSuffix(name, ".journaled") && tornBudget > 0 {
+		// torn tails: at most one journal point per "epoch" (the stretch between two snapshot / rewrite / restart /
+		// import / compress operations), so that logs that start with a snapshot or a compaction get torn too
+		if strings.HasSuffix(name, ".journaled") && tornBudget > 0 && tornInEpoch[epoch] < tornPerEpoch {
+			tornInEpoch[epoch]++
 			// emulate the lazy writer's flush ticker firing right now and remember where the new bytes start
 			if st, err := os.Stat(filepath.Join(r.Dir, "kektordb.aof")); err == nil {
 				tornFrom = st.Size()
@@ -250,6 +259,12 @@ func c02Run(ops []Op, seed int64, tornImages int, maxImages int, tornStride int)
 		if opIsDurabilityPoint(op, r.LastErr) {
 			mu.Lock()
 			floor = len(states) - 1
+			mu.Unlock()
+		}
+		switch op.K {
+		case KSnapshot, KRewrite, KRestart, KImport, KCompress:
+			mu.Lock()
+			epoch++
 			mu.Unlock()
 		}
 	}
@@ -393,7 +408,7 @@ func TestVerif_C02_crash(t *testing.T) {
 	col := verifkit.New("C02", "crash",
 		"rapid-generated histories of 5-26 engine ops (with Flush markers, snapshots, rewrites, drops, imports, compress, deletes) x a crash image of the data directory at EVERY verif hook point the history hits (journal/apply gaps of every mutating op; each phase boundary of SaveSnapshot, RewriteAOF, Compress, VDeleteIndex, the delete cascade, and of recovery itself during restarts) x a second crash image taken inside the recovery of each image x torn log tails: at journal points the harness forces the lazy writer to flush (as its ticker could) and then recovers from every prefix of the bytes that flush wrote (all header offsets, payload offsets strided in quick / all in thorough); per image: Open succeeds, every item's value is one it held between the durable floor and the interrupted op, fixed point, write-more-and-restart; non-trivial = the history contains a multi-step op (snapshot, rewrite, drop, import, compress, delete) so that images fall strictly inside it")
 	defer col.Finish()
-	torn := verifkit.Pick(2, 6)
+	torn := verifkit.Pick(4, 10)
 	maxImg := verifkit.Pick(120, 400)
 	if rp := verifkit.ReplayPath(); rp != "" {
 		if verifkit.ReplayPart(rp) != "crash" {
